@@ -81,6 +81,8 @@ impl RoomLockService {
         locked: &mut HashSet<Uid>,
         avalaible: &mut usize,
     ) {
+        //peers that cannot be served now: they keep their place in the queue
+        let mut skipped: Vec<[u8; 32]> = Vec::new();
         for _ in 0..peer_queue.len() {
             if let Some(peer) = peer_queue.pop_back() {
                 if let Some(mut lock_request) = peer_lock_request.remove(&peer) {
@@ -99,13 +101,22 @@ impl RoomLockService {
                     }
                     if !lock_request.rooms.is_empty() {
                         peer_lock_request.insert(peer, lock_request);
-                        peer_queue.push_front(peer);
+                        if lock_aquired {
+                            //a peer that has just been served goes behind the peers that are waiting
+                            peer_queue.push_front(peer);
+                        } else {
+                            skipped.push(peer);
+                        }
                     }
                     if lock_aquired {
                         break;
                     }
                 }
             }
+        }
+        //a waiting peer re-queued behind later arrivals could be overtaken for ever
+        for peer in skipped.into_iter().rev() {
+            peer_queue.push_back(peer);
         }
     }
 
